@@ -4,7 +4,7 @@ from fractions import Fraction
 
 from hypothesis import strategies as st
 
-from vlib.core import Part, Violation, Discard, call
+from vlib.core import lib_frames, Part, Violation, Discard, call
 from vlib import exprgen as X
 
 from mitxgraders import FormulaGrader, NumericalGrader
@@ -378,6 +378,23 @@ def judge_tree(spec, rec):
     rec.calls()
     if kind == 'err' or repr(out[0]) != repr(vals[0]):
         raise Violation('tree/spaces-change-value', '%r -> %r but %r -> %r' % (base, vals[0], sp, out))
+    # variables bound to numpy scalars (what the library's own samplers and authors' numpy-computed constants hand to
+    # the evaluator) denote the same numbers as the builtin ones
+    import numpy as _np
+    env_np = {k: (_np.complex128(v) if isinstance(v, complex) else _np.float64(v) if isinstance(v, float) else v)
+              for k, v in env.items()}
+    if any(type(env_np[k]) is not type(env[k]) for k in env):
+        kind, out = lib_eval(base, env_np, suffixes)
+        rec.calls()
+        rec.cls('tree/numpy-scalar-bindings')
+        if kind == 'err':
+            if isinstance(out, MITxError) or lib_frames(out.__traceback__)[0] is not None:
+                raise Violation('tree/numpy-bindings/raised', '%r with numpy-scalar variable values raised %s: %s ; with '
+                                'builtin values it is %r' % (base, type(out).__name__, out, vals[0]), string=base)
+            raise out
+        if not isinstance(out[0], (int, float, complex)) or out[0] != out[0] or abs(out[0] - ref) > tol:
+            raise Violation('tree/numpy-bindings/value', '%r with numpy-scalar variable values gives %r, with builtin '
+                            'values %r' % (base, out[0], vals[0]), string=base)
     ops = X.ops_of(t)
     names = X.names_of(t)
     if names['suffixes']:
